@@ -4,8 +4,7 @@ One line = one DPT class × one block of payloads / values; the answer is the
 run-length encoded list of per-item tokens, identical in format to what
 harness/cases/C07..C10.py compute from the implementation.
 -/
-import XknxVerif.Model.DPT.Codec
-import XknxVerif.Generated.DPTTable
+import XknxVerif.Model.DPT.Cores
 
 namespace XknxVerif.DPT
 open XknxVerif.SF
@@ -129,6 +128,15 @@ def encTok (r : Row) (v : PyNum) : String :=
 -- DRIVER: dpt => XknxVerif.DPT.handle
 /-- `dec|sdd|rt|json <Class> <payload spec>` and `enc <Class> <value spec>` → RLE of tokens -/
 def handle : List String → String
+  | ["core", which, k] =>
+    -- the hypotheses of the `_partial` theorems of Props/C08, evaluated by the compiled model (256 words per line)
+    match k.toNat? with
+    | none => "bad-op"
+    | some k =>
+      if which == "f16" then toString (f16Chunk k)
+      else if which == "s16" then
+        toString (Generated.s16ParamList.all fun P => (List.range 256).all fun j => s16Core P (toS16 (256 * k + j)))
+      else "bad-op"
   | [op, cls, spec] =>
     match lookup theTable cls with
     | none => "unknown-class"
